@@ -22,8 +22,11 @@ type cg struct {
 	stats map[string]int
 }
 
-var condNames = []string{"a", "b", "c", "d", "internal-panic", ":kw", "user:a", "a", "b"}
-var specNames = []string{"a", "b", "c", "d", "internal-panic", "condition", "condition", ":kw", "user:a", "lisp:a"}
+// `error` is the condition name of every interpreter-raised error: as a
+// specifier it must match those (and a lisp-raised (error 'error ...)) by NAME
+// and nothing else -- it is not a second catch-all (anchor audit).
+var condNames = []string{"a", "b", "c", "d", "internal-panic", ":kw", "user:a", "a", "b", "error"}
+var specNames = []string{"a", "b", "c", "d", "internal-panic", "condition", "condition", ":kw", "user:a", "lisp:a", "error"}
 
 func (g *cg) n(lo, hi int, l string) int { return rapid.IntRange(lo, hi).Draw(g.t, l) }
 func (g *cg) pick(l string, opts ...string) string {
@@ -99,7 +102,42 @@ func (g *cg) handlerBody(depth int) []gen.Val {
 		g.probe++
 		body = append(body, gen.Call("host-cond", gen.I(int64(g.probe))))
 	}
-	switch g.n(0, 7, "hbody") {
+	kind := g.n(0, 8, "hbody")
+	if kind == 8 && depth <= 0 {
+		kind = 6
+	}
+	switch kind {
+	case 8:
+		// The condition being handled is re-raised INSIDE a nested handling
+		// form that deals with it a second time (the same error object is
+		// pending twice), and when that form is done the outer handler uses
+		// its pending condition again: it must still be there, and still be
+		// the same object (anchor audit: a condition stack that drops or
+		// merges entries is invisible to single-form handler bodies).
+		g.stats["rethrow"]++
+		g.stats["rethrow-in-handler"]++
+		g.stats["rehandle-then-use"]++
+		g.conds++
+		var inner gen.Val
+		if g.n(0, 3, "rehandle") == 0 {
+			g.stats["ignore-errors"]++
+			inner = gen.L(gen.S("ignore-errors"), gen.Call("rethrow"))
+		} else {
+			g.stats["handler-bind"]++
+			spec := "condition"
+			if g.n(0, 1, "respec-any") == 0 {
+				spec = g.pick("respec", specNames...)
+			}
+			inner = gen.L(gen.S("handler-bind"), gen.L(gen.L(gen.S(spec), g.handler(depth-1))), gen.Call("rethrow"))
+		}
+		body = append(body, g.probeOf(inner))
+		g.probe++
+		body = append(body, gen.Call("host-cond", gen.I(int64(g.probe))))
+		if g.n(0, 1, "reuse") == 0 {
+			body = append(body, gen.Call("rethrow"))
+		} else {
+			body = append(body, g.probeOf(gen.S("c")))
+		}
 	case 0:
 		body = append(body, g.probeOf(gen.Call("list", gen.S("c"), gen.S("d"))))
 	case 1:
@@ -258,6 +296,7 @@ func check(cs Case, c *vcommon.Ctx) *vcommon.Failure {
 		}
 	}
 	rt := vcommon.NewRuntime(vcommon.Cfg{MaxSteps: 200000, MaxPhysical: 2000, NoStdlib: true})
+	stacks := snapshotStacksAtHostCond(rt)
 	out := rt.Load(src)
 	for k, n := range cs.Stats {
 		if n > 0 {
@@ -315,6 +354,22 @@ func check(cs Case, c *vcommon.Ctx) *vcommon.Failure {
 	// identity: the host receives the very error object a handler saw iff the
 	// reference says it is the same condition (rethrow), never otherwise
 	if len(in.CondIDs) == len(rt.HostErrs) {
+		// a condition is pending for rethrow exactly when the reference has
+		// one, and two observations see one error object exactly when the
+		// reference says they are the same condition
+		for i, id := range in.CondIDs {
+			if pending := rt.HostErrs[i] != nil; pending != (id != 0) {
+				return vcommon.Failf("pending-condition", "host-cond #%d: a condition is pending for rethrow=%v, reference says %v\n%s", i, pending, id != 0, src)
+			}
+			for j := 0; j < i; j++ {
+				if id == 0 || in.CondIDs[j] == 0 {
+					continue
+				}
+				if same, want := rt.HostErrs[i] == rt.HostErrs[j], id == in.CondIDs[j]; same != want {
+					return vcommon.Failf("pending-identity", "host-cond #%d and #%d see the same error object=%v, reference says %v\n%s", j, i, same, want, src)
+				}
+			}
+		}
 		for i, id := range in.CondIDs {
 			same := rt.HostErrs[i] != nil && rt.HostErrs[i] == out.Val
 			wantSame := id != 0 && id == rerr.ID
@@ -326,10 +381,71 @@ func check(cs Case, c *vcommon.Ctx) *vcommon.Failure {
 				if out.Val.CallStack() == nil {
 					return vcommon.Failf("rethrow-stack", "rethrown error lost its stack trace\n%s", src)
 				}
+				// "with the same ... stack trace": the trace the host reads
+				// from the re-raised error is the one the error carried
+				// while it was being handled
+				if i < len(*stacks) {
+					if got, want := stackText(out.Val), (*stacks)[i]; got != want {
+						return vcommon.Failf("rethrow-stack-changed", "rethrown error's stack trace changed between the handler and the host\nwhile handled:\n%sat the host:\n%s%s", want, got, src)
+					}
+					c.Class("rethrow-stack-compared")
+				}
 			}
 		}
 	}
 	return nil
+}
+
+// stackText renders everything the host can read from an error's recorded
+// stack trace: every frame (location, function, flags, logical height) and the
+// Go stack dump of a recovered panic.
+func stackText(e *lisp.LVal) string {
+	if e == nil || e.Type != lisp.LError {
+		return "<no error>\n"
+	}
+	cs := e.CallStack()
+	if cs == nil {
+		return "<no stack>\n"
+	}
+	var b strings.Builder
+	for i := range cs.Frames {
+		f := &cs.Frames[i]
+		fmt.Fprintf(&b, "  %s height=%d iter=%d\n", f.String(), f.HeightLogical, f.TailIterations)
+	}
+	fmt.Fprintf(&b, "  gostack=%d bytes %x\n", len(cs.GoStack), hashBytes(cs.GoStack))
+	return b.String()
+}
+
+func hashBytes(p []byte) uint64 {
+	h := uint64(1469598103934665603)
+	for _, c := range p {
+		h = (h ^ uint64(c)) * 1099511628211
+	}
+	return h
+}
+
+// snapshotStacksAtHostCond rebinds (host-cond tag) -- same observable
+// behaviour as vcommon's: remember the error object pending for rethrow, log the
+// tag -- to a version that also renders the pending error's stack trace AT THAT
+// MOMENT, so that the trace of the error the host finally receives can be
+// compared with the one it had while it was being handled.  (Pointer identity
+// alone cannot see an in-place change of the trace.)
+func snapshotStacksAtHostCond(rt *vcommon.Rt) *[]string {
+	stacks := &[]string{}
+	pkg := rt.Env.Runtime.Registry.Package(lisp.DefaultUserPackage)
+	orig := pkg.Get(lisp.Symbol("host-cond"))
+	if orig.Type != lisp.LFun {
+		panic("host-cond is not registered")
+	}
+	pkg.Put(lisp.Symbol("host-cond"), lisp.FunInPackage(lisp.DefaultUserPackage, orig.FID(), lisp.Formals("tag"),
+		func(env *lisp.LEnv, args *lisp.LVal) *lisp.LVal {
+			cur := env.Runtime.CurrentCondition()
+			rt.HostErrs = append(rt.HostErrs, cur)
+			*stacks = append(*stacks, stackText(cur))
+			rt.Trace = append(rt.Trace, vcommon.Event{Tag: "host-cond", Payload: vcommon.Canon(args.Cells[0])})
+			return lisp.Nil()
+		}))
+	return stacks
 }
 
 func describe(o vcommon.Outcome) string {
